@@ -150,6 +150,44 @@ def opRelations : P String := do
   let flat := t.flatten.flatten
   pure (join (flat.map (fun o => match o with | some v => toString v | none => "-1")))
 
+def pData : P Api.Data := do
+  let n ← pNat
+  pMany n (do let i ← pNat; let r ← pNat; pure (i, r))
+
+/-- `api <stale 0/1> <cols> <feats> <x: data> <nops> ops…` with ops `T data` | `I rows` | `U id rows`
+    → per op `E rows cols isTraining` | `V rows feats` | `U`, separated by `;`. -/
+def opApi : P String := do
+  let stale ← pNat
+  let cols ← pNat
+  let feats ← pNat
+  let x ← pData
+  let nops ← pNat
+  let ops ← pMany nops (do
+    let t ← tok
+    match t with
+    | "T" => do let y ← pData; pure (Api.Op.transform y)
+    | "I" => do let z ← pNat; pure (Api.Op.inverseTransform z)
+    | "U" => do let i ← pNat; let r ← pNat; pure (Api.Op.update (i, r))
+    | _ => throw s!"apiop:{t}")
+  let mut s := Api.fit x cols feats
+  let mut outs : Array String := #[]
+  for o in ops do
+    let (s', out) := Api.step (stale == 1) s o
+    s := s'
+    outs := outs.push (match out with
+      | .embedding r c t => s!"E {r} {c} {if t then 1 else 0}"
+      | .inverse r f => s!"V {r} {f}"
+      | .updated => "U")
+  pure (" ; ".intercalate outs.toList)
+
+/-- `knndecision <pinned> <cols> <k> <rows> <n> <force>` → `ignore` | `use <cols> <force>` -/
+def opKnnDecision : P String := do
+  let pinned ← pNat
+  let cols ← pNat; let k ← pNat; let rows ← pNat; let n ← pNat; let force ← pNat
+  match Api.validatePrecomputedKnn (pinned == 1) cols k rows n (force == 1) with
+  | .ignore => pure "ignore"
+  | .use c f => pure s!"use {c} {if f then 1 else 0}"
+
 def dispatch (op : String) : P String :=
   match op with
   | "knn" => opKnn
@@ -157,6 +195,8 @@ def dispatch (op : String) : P String :=
   | "graph" => opGraph
   | "sym" => opSym
   | "relations" => opRelations
+  | "api" => opApi
+  | "knndecision" => opKnnDecision
   | "ping" => pure "pong"
   | _ => throw "unknown"
 
